@@ -80,13 +80,80 @@ def gen_case(rng, lcfg=None, mcfg=None, corelang_share=0.0):
         src = 'generated'
     lang = Lang(spec)
     am = gen_amodel(rng, lang, mcfg)
-    return {'source': src, 'spec': spec, 'amodel': am.to_json()}
+    return {'source': src, 'spec': spec, 'amodel': am.to_json(),
+            'interference': rng.randrange(1 << 30) if rng.random() < INTERFERENCE_SHARE else None}
+
+
+# ---- interference: other objects and refused calls around the objects under test ----------------------------
+# A share of the cases (case['interference'] = seed) is built in a "busy process": other language graphs for a
+# different language with the same asset-type names are created before and after the one under test, constructions
+# and generations that correctly fail happen in between, a second model lives on the same class factory, calls on
+# the model under test are refused, twin attack graphs are generated from the same model before and after the graph
+# under test.  None of this may change what the objects under test answer: every check that uses Built compares
+# with the same reference as in a quiet process.
+INTERFERENCE_SHARE = 0.3
+STATS = {}
+
+
+def _stat(k, n=1):
+    STATS[k] = STATS.get(k, 0) + n
+
+
+def variant_spec(spec, irng):
+    """a different, well-formed language with the same asset-type, step, field and variable names"""
+    v = copy.deepcopy(spec)
+    v['defines'] = dict(v.get('defines', {}), version='9.9.9')
+    for a in v['assets']:
+        # what the steps of an asset lead to is rotated among them (same context type: still well-formed)
+        own = [st for st in a['attackSteps'] if st['type'] in ('or', 'and', 'defense')]
+        if len(own) >= 2:
+            rs = [st['reaches'] for st in own]
+            rs = rs[1:] + rs[:1]
+            for st, r in zip(own, rs):
+                st['reaches'] = r
+        for st in a['attackSteps']:
+            if st['type'] in ('or', 'and'):
+                st['type'] = 'and' if st['type'] == 'or' else 'or'
+                st['tags'] = ['noise']
+                st['ttc'] = None
+                if st['reaches'] and irng.random() < 0.5:
+                    st['reaches'] = {'overrides': st['reaches']['overrides'], 'stepExpressions': st['reaches']['stepExpressions'][:1]}
+            elif st['type'] == 'defense':
+                enabled = bool(st['ttc']) and st['ttc'].get('name') == 'Enabled'
+                st['ttc'] = {'type': 'function', 'name': 'Disabled' if enabled else 'Enabled', 'arguments': []}
+    return v
+
+
+def illformed_variant(spec):
+    v = copy.deepcopy(spec)
+    if v['assets']:
+        v['assets'][-1]['superAsset'] = 'NoSuchAssetType'
+    return v
+
+
+def older_version_spec(spec):
+    """the language without one leaf sub-type that nothing else mentions (an "older version"), or None"""
+    text = json.dumps(spec)
+    names = [a['name'] for a in spec['assets']]
+    parents = {a['name']: a['superAsset'] for a in spec['assets']}
+    for t in reversed(names):
+        if not parents[t] or t in parents.values():
+            continue
+        if any(t in (x['leftAsset'], x['rightAsset']) for x in spec['associations']):
+            continue
+        if '"subType": "%s"' % t in text:
+            continue
+        v = copy.deepcopy(spec)
+        v['assets'] = [a for a in v['assets'] if a['name'] != t]
+        return v
+    return None
 
 
 class Built:
     """real objects for a case, built from the working tree's classes"""
 
     def __init__(self, case, attackers=True, explicit_ids=None):
+        import random
         from maltoolbox.language import LanguageGraph, LanguageClassesFactory
         from maltoolbox.model import Model, AttackerAttachment
         self.case = case
@@ -94,11 +161,93 @@ class Built:
         self.am = AModel.from_json(case['amodel'])
         # the toolbox gets its own deep copy; self.lang keeps the pristine one
         self.spec_given = copy.deepcopy(case['spec'])
+        seed = case.get('interference')
+        self.irng = irng = random.Random(seed) if seed is not None else None
+        self.noise = []
+        if irng:
+            self._other_language_graphs(irng)
         self.lang_graph = LanguageGraph(self.spec_given)
+        if irng:
+            self._other_language_graphs(irng)
         self.factory = LanguageClassesFactory(self.lang_graph)
         self.model, self.objs = build_real(
             self.lang, self.am, self.factory, Model,
             AttackerAttachment if attackers else None, explicit_ids=explicit_ids)
+        if irng:
+            _stat('cases-built-with-interference')
+            self._refused_calls(irng)
+
+    def _other_language_graphs(self, irng):
+        from maltoolbox.language import LanguageGraph
+        try:
+            LanguageGraph(illformed_variant(self.case['spec']))       # correctly refused
+        except Exception:
+            pass
+        try:
+            other = LanguageGraph(variant_spec(self.case['spec'], irng))
+            self.noise.append(other)
+            if irng.random() < 0.5:
+                other.regenerate_graph()
+            for a in list(other.assets)[:3]:
+                other._get_attacks_for_asset_type(a.name)
+        except Exception:
+            pass
+
+    def _refused_calls(self, irng):
+        """calls that are correctly refused, and a second model on the same class factory"""
+        from maltoolbox.model import Model
+        from maltoolbox.attackgraph import AttackGraph
+        m = self.model
+        # a second model on the same classes, same ids and names
+        try:
+            other = Model('other', self.factory)
+            for a in self.am.assets[:3]:
+                other.add_asset(getattr(self.factory.ns, a['type'])(name=a['name']), asset_id=a['id'])
+            self.noise.append(other)
+            if m.associations:
+                try:
+                    other.remove_association(m.associations[irng.randrange(len(m.associations))])   # not in that model
+                except Exception:
+                    _stat('refused:remove_association-of-another-model')
+            if m.assets:
+                try:
+                    other.remove_asset(m.assets[irng.randrange(len(m.assets))])                     # not in that model
+                except Exception:
+                    pass
+        except Exception:
+            pass
+        # an asset of the model added again under its own id: the id is in use
+        for _ in range(2):
+            if m.assets:
+                a = m.assets[irng.randrange(len(m.assets))]
+                try:
+                    m.add_asset(a, asset_id=int(a.id))
+                except Exception:
+                    _stat('refused:add_asset-already-in-model')
+        # a generation that fails: the model does not fit the (older version of the) language
+        old = older_version_spec(self.case['spec'])
+        if old is not None:
+            try:
+                lg_old = LanguageGraph(old)
+                self.noise.append(lg_old)
+                with cpu_budget(CASE_CPU_S):
+                    self.noise.append(AttackGraph(lg_old, m))
+            except TooExpensive:
+                pass
+            except Exception:
+                _stat('refused:generation-with-an-older-language-version')
+        # generations from the model under test that are interrupted part-way (a timeout: TooExpensive is raised
+        # from a timer signal at whatever point the generation has reached)
+        for delay in (irng.choice([0.0002, 0.0005, 0.001]), irng.choice([0.001, 0.002, 0.004])):
+            try:
+                with cpu_budget(delay):
+                    AttackGraph(self.lang_graph, m)
+            except TooExpensive:
+                _stat('refused:generation-interrupted-part-way')
+            except Exception:
+                pass
+        if irng.random() < 0.6:
+            self._other_language_graphs(irng)       # the other language is loaded once more
 
     @classmethod
     def from_history(cls, case):
@@ -109,6 +258,7 @@ class Built:
         self = cls.__new__(cls)
         ls = Lockstep(case['spec'])
         ls.check_every_step = False
+        ls.strict_raise = False      # what a refused operation leaves behind is judged by what is generated from the model
         mid = case.get('generate_after')
         for i, op in enumerate(case['history']):
             if mid is not None and i == mid:
@@ -134,10 +284,21 @@ class Built:
         its lists and re-evaluates a subType operand once per target, so a few
         generated cases are pathologically expensive: TooExpensive -> skip"""
         from maltoolbox.attackgraph import AttackGraph
-        if cpu_s is None:
-            return AttackGraph(self.lang_graph, self.model)
-        with cpu_budget(cpu_s):
-            return AttackGraph(self.lang_graph, self.model)
+        irng = getattr(self, 'irng', None)
+        if irng is None:
+            if cpu_s is None:
+                return AttackGraph(self.lang_graph, self.model)
+            with cpu_budget(cpu_s):
+                return AttackGraph(self.lang_graph, self.model)
+        # twin graphs generated from the same model before and after the graph under test
+        with cpu_budget(3 * (cpu_s or CASE_CPU_S)):
+            if irng.random() < 0.5:
+                self.noise.append(AttackGraph(self.lang_graph, self.model))
+            g = AttackGraph(self.lang_graph, self.model)
+            if irng.random() < 0.7:
+                self.noise.append(AttackGraph(self.lang_graph, self.model))
+                _stat('twin-graph-generated-after-the-graph-under-test')
+        return g
 
 
 def shrink_case(case, still_fails, max_runs=120):
